@@ -1189,6 +1189,13 @@ class _OperatorCalls(ast.NodeTransformer):
             r = ast.IfExp(test=n.func.test, body=self.visit_Call(ast.copy_location(a, n)), orelse=self.visit_Call(ast.copy_location(b, n)))
             return ast.copy_location(r, n)
         f = n.func
+        if isinstance(f, ast.Name) and f.id == "zip" and len(n.args) == 2 and not n.keywords and _is_path(n.args[0]) and \
+                isinstance(n.args[1], ast.Subscript) and isinstance(n.args[1].slice, ast.Slice) and ast.unparse(n.args[1].slice) == "1:" and \
+                ast.unparse(n.args[1].value) == ast.unparse(n.args[0]):
+            # zip stops at the shorter: zip(x, x[1:]) is zip(x[:-1], x[1:])
+            a0 = ast.Subscript(value=n.args[0], slice=ast.Slice(lower=None, upper=ast.UnaryOp(op=ast.USub(), operand=ast.Constant(value=1)), step=None), ctx=ast.Load())
+            n.args[0] = ast.copy_location(a0, n.args[0])
+            return ast.fix_missing_locations(n)
         if isinstance(f, ast.Attribute) and isinstance(f.value, ast.Name) and len(n.args) == 2 and not n.keywords:
             r = self.M.resolve(self.fn.mod, f.value.id)
             if r and r[0] == "external" and r[1] in ("operator", "_operator"):
@@ -1423,6 +1430,168 @@ def with_roles(fn, roles):
     return dataclasses.replace(fn, node=node)
 
 
+def _zip_stack_to_cursor(node: ast.FunctionDef) -> bool:
+    """`S = list(zip(A, B))` used only as a stack that is read at its top and popped — `S[-1][i]`, `x, y = S[-1]`, `S.pop()` as a
+    statement — is a cursor `k = -1` into the parallel tables: `S[-1][0]` is `A[k]`, `S[-1][1]` is `B[k]`, `S.pop()` is `k -= 1`
+    (A and B of equal length: one entry per tempo change each, C10.R9).  Both components come from one tuple, i.e. from ONE index."""
+    changed = False
+    for block in _blocks(node):
+        for i, st in enumerate(block):
+            if not (isinstance(st, ast.Assign) and len(st.targets) == 1 and isinstance(st.targets[0], ast.Name)):
+                continue
+            v = st.value
+            if isinstance(v, ast.Call) and isinstance(v.func, ast.Name) and v.func.id == "list" and len(v.args) == 1:
+                v = v.args[0]
+            else:
+                continue
+            if not (isinstance(v, ast.Call) and isinstance(v.func, ast.Name) and v.func.id == "zip" and len(v.args) >= 2 and not v.keywords and
+                    all(_is_path(a) or (isinstance(a, ast.Call) and not a.args and _is_path(a.func)) for a in v.args)):
+                continue
+            S = st.targets[0].id
+            if sum(1 for n in ast.walk(node) if isinstance(n, ast.Name) and n.id == S and isinstance(n.ctx, ast.Store)) != 1:
+                continue
+            tables = list(v.args)
+            uses = [n for n in ast.walk(node) if isinstance(n, ast.Name) and n.id == S and isinstance(n.ctx, ast.Load)]
+            k = f"__top_{S}"
+            kn = lambda: ast.Name(id=k, ctx=ast.Load())    # noqa: E731
+            ok = [True]
+            seen = [0]
+
+            def is_top(e):
+                return isinstance(e, ast.Subscript) and isinstance(e.value, ast.Name) and e.value.id == S and \
+                    isinstance(e.slice, ast.UnaryOp) and isinstance(e.slice.op, ast.USub) and isinstance(e.slice.operand, ast.Constant) and \
+                    e.slice.operand.value == 1 and isinstance(e.ctx, ast.Load)
+
+            class Rw(ast.NodeTransformer):
+                def visit_Subscript(self, n):
+                    if is_top(n.value) and isinstance(n.slice, ast.Constant) and isinstance(n.slice.value, int) and 0 <= n.slice.value < len(tables) \
+                            and isinstance(n.ctx, ast.Load):
+                        seen[0] += 1
+                        return ast.copy_location(ast.Subscript(value=copy.deepcopy(tables[n.slice.value]), slice=kn(), ctx=ast.Load()), n)
+                    return self.generic_visit(n)
+
+                def visit_Assign(self, n):
+                    if is_top(n.value) and len(n.targets) == 1 and isinstance(n.targets[0], ast.Tuple) and len(n.targets[0].elts) == len(tables) and \
+                            all(isinstance(t, ast.Name) for t in n.targets[0].elts):
+                        seen[0] += 1
+                        return [ast.copy_location(ast.Assign(targets=[ast.Name(id=t.id, ctx=ast.Store())],
+                                                             value=ast.Subscript(value=copy.deepcopy(tb), slice=kn(), ctx=ast.Load())), n)
+                                for t, tb in zip(n.targets[0].elts, tables)]
+                    return self.generic_visit(n)
+
+                def visit_Expr(self, n):
+                    c = n.value
+                    if isinstance(c, ast.Call) and isinstance(c.func, ast.Attribute) and c.func.attr == "pop" and isinstance(c.func.value, ast.Name) and \
+                            c.func.value.id == S and not c.args and not c.keywords:
+                        seen[0] += 1
+                        return ast.copy_location(ast.AugAssign(target=ast.Name(id=k, ctx=ast.Store()), op=ast.Sub(), value=ast.Constant(value=1)), n)
+                    return self.generic_visit(n)
+            trial = copy.deepcopy(node)
+            # (work on a copy first: every use of S must be one of the three forms)
+            tb = None
+            for b2 in _blocks(trial):
+                for s2 in b2:
+                    if isinstance(s2, ast.Assign) and len(s2.targets) == 1 and isinstance(s2.targets[0], ast.Name) and s2.targets[0].id == S:
+                        tb = (b2, s2)
+            if tb is None:
+                continue
+            rest_ix = tb[0].index(tb[1])
+            new_rest = []
+            for s2 in tb[0][rest_ix + 1:]:
+                r = Rw().visit(s2)
+                new_rest.extend(r if isinstance(r, list) else [r])
+            left = [n for s2 in new_rest for n in ast.walk(s2) if isinstance(n, ast.Name) and n.id == S]
+            if left or seen[0] != len(uses) or not uses:
+                continue
+            init = ast.copy_location(ast.Assign(targets=[ast.Name(id=k, ctx=ast.Store())], value=ast.UnaryOp(op=ast.USub(), operand=ast.Constant(value=1))), st)
+            block[i:] = [init] + new_rest
+            ast.fix_missing_locations(node)
+            changed = True
+            break
+        if changed:
+            break
+    return changed
+
+
+def _carried_to_pairs(node: ast.FunctionDef) -> bool:
+    """loop-carried "previous element" variables made explicit.
+    (1) `P = X[0]` … `for C in X[1:]: <body>; P = C; <rest>` (P bound nowhere else, not read after the loop): the body before the
+        rebind sees P = the element before C — `for P, C in zip(X[:-1], X[1:])`, the rebind dropped, P read after it renamed C.
+    (2) `Q = E0` … `L = [Q]` … in the loop `Q = E` … `L.append(Q)` (the only append to L, Q bound nowhere else): wherever the loop
+        body reads Q before rebinding it, Q is the last element appended so far — `L[-1]`; `Q = E; L.append(Q)` is `L.append(E)`."""
+    changed = False
+    top = node.body
+    for li, lp in enumerate(top):
+        if not (isinstance(lp, ast.For) and isinstance(lp.target, ast.Name) and not lp.orelse and isinstance(lp.iter, ast.Subscript) and
+                isinstance(lp.iter.slice, ast.Slice) and ast.unparse(lp.iter.slice) == "1:" and _is_path(lp.iter.value)):
+            continue
+        X = ast.unparse(lp.iter.value)
+        C = lp.target.id
+        after = top[li + 1:]
+        before = top[:li]
+        # (1)
+        for bi, st in enumerate(lp.body):
+            if not (isinstance(st, ast.Assign) and len(st.targets) == 1 and isinstance(st.targets[0], ast.Name) and isinstance(st.value, ast.Name) and
+                    st.value.id == C):
+                continue
+            P = st.targets[0].id
+            stores = [n for n in ast.walk(node) if isinstance(n, ast.Name) and n.id == P and isinstance(n.ctx, (ast.Store, ast.Del))]
+            inits = [b for b in before if isinstance(b, ast.Assign) and len(b.targets) == 1 and isinstance(b.targets[0], ast.Name) and b.targets[0].id == P]
+            if len(stores) != 2 or len(inits) != 1 or ast.unparse(inits[0].value) != f"{X}[0]":
+                continue
+            if any(isinstance(n, ast.Name) and n.id == P for a in after for n in ast.walk(a)):
+                continue
+            if any(isinstance(n, ast.Name) and n.id == C and isinstance(n.ctx, ast.Store) for b in lp.body for n in ast.walk(b)):
+                continue
+            rest = [_Rename({P: ast.Name(id=C, ctx=ast.Load())}).visit(x) for x in lp.body[bi + 1:]]
+            lp.body = lp.body[:bi] + rest or [ast.Pass()]
+            sl = lambda lo, hi: ast.Subscript(value=copy.deepcopy(lp.iter.value), slice=ast.Slice(lower=lo, upper=hi, step=None), ctx=ast.Load())   # noqa: E731
+            lp.target = ast.Tuple(elts=[ast.Name(id=P, ctx=ast.Store()), ast.Name(id=C, ctx=ast.Store())], ctx=ast.Store())
+            lp.iter = ast.Call(func=ast.Name(id="zip", ctx=ast.Load()),
+                               args=[sl(None, ast.UnaryOp(op=ast.USub(), operand=ast.Constant(value=1))), sl(ast.Constant(value=1), None)], keywords=[])
+            ast.fix_missing_locations(node)
+            changed = True
+            break
+        # (2)
+        for bi, st in enumerate(lp.body):
+            if not (isinstance(st, ast.Assign) and len(st.targets) == 1 and isinstance(st.targets[0], ast.Name)):
+                continue
+            Q = st.targets[0].id
+            stores = [n for n in ast.walk(node) if isinstance(n, ast.Name) and n.id == Q and isinstance(n.ctx, (ast.Store, ast.Del))]
+            inits = [b for b in before if isinstance(b, ast.Assign) and len(b.targets) == 1 and isinstance(b.targets[0], ast.Name) and b.targets[0].id == Q]
+            if len(stores) != 2 or len(inits) != 1:
+                continue
+            # the list that starts as [Q] and receives Q right after each rebind
+            Ls = [b for b in before if isinstance(b, (ast.Assign, ast.AnnAssign)) and isinstance(getattr(b, "value", None), ast.List) and
+                  len(b.value.elts) == 1 and isinstance(b.value.elts[0], ast.Name) and b.value.elts[0].id == Q and
+                  before.index(b) > before.index(inits[0])]
+            if len(Ls) != 1:
+                continue
+            tgt = Ls[0].targets[0] if isinstance(Ls[0], ast.Assign) else Ls[0].target
+            if not isinstance(tgt, ast.Name):
+                continue
+            L = tgt.id
+            apps = [n for n in ast.walk(node) if isinstance(n, ast.Call) and isinstance(n.func, ast.Attribute) and n.func.attr in ("append", "extend", "insert", "pop", "remove", "clear", "sort", "reverse")
+                    and isinstance(n.func.value, ast.Name) and n.func.value.id == L]
+            nxt = lp.body[bi + 1] if bi + 1 < len(lp.body) else None
+            if not (len(apps) == 1 and isinstance(nxt, ast.Expr) and nxt.value is apps[0] and apps[0].func.attr == "append" and
+                    len(apps[0].args) == 1 and isinstance(apps[0].args[0], ast.Name) and apps[0].args[0].id == Q):
+                continue
+            if any(isinstance(n, ast.Name) and n.id == L and isinstance(n.ctx, ast.Store) for x in top[before.index(Ls[0]) + 1:] for n in ast.walk(x)):
+                continue
+            reads_after = [n for x in lp.body[bi + 2:] + after for n in ast.walk(x) if isinstance(n, ast.Name) and n.id == Q]
+            if reads_after or any(isinstance(n, ast.Name) and n.id == Q for n in ast.walk(st.value)):
+                continue
+            last = ast.Subscript(value=ast.Name(id=L, ctx=ast.Load()), slice=ast.UnaryOp(op=ast.USub(), operand=ast.Constant(value=1)), ctx=ast.Load())
+            head = [_Rename({Q: last}).visit(x) for x in lp.body[:bi]]
+            apps[0].args[0] = st.value
+            lp.body = head + lp.body[bi + 1:]
+            ast.fix_missing_locations(node)
+            changed = True
+            break
+    return changed
+
+
 def _ctor_kwargs_to_stores(M, fn, node: ast.FunctionDef) -> None:
     """`x = C(a=v, b=w)` / `return C(a=v, b=w)` for a dataclass C of the repository (no __post_init__ in its hierarchy, every keyword
     a field) is `x = C(); x.a = v; x.b = w`: an object built with its final values reads like one built empty and filled"""
@@ -1572,6 +1741,12 @@ def normalise(M, fn, subst: bool = False, guards: bool = False, keep=(), comps: 
             break
     for _ in range(3):
         if not _fuse_tuple_buffers(node):
+            break
+    for _ in range(3):
+        if not _zip_stack_to_cursor(node):
+            break
+    for _ in range(4):
+        if not _carried_to_pairs(node):
             break
     if guards:
         node.body = _guards_to_else(node.body)
